@@ -60,6 +60,12 @@ def gen_behaviour(rng, types, compliant_outputs=False, monotone=False):
     init = [[i, rng.randint(0, 2)] for i in range(n) if types[i] == 'event-based' and rng.random() < 0.7]
     # a delayed start: set_initial_event on a time-based or hybrid simulator replaces its automatic step at 0
     init += [[i, rng.randint(0, 3)] for i in range(n) if types[i] != 'event-based' and rng.random() < 0.15]
+    # the same simulator named twice (one call per entity of a simulator is a common idiom): the last call decides, and a
+    # repeated time is still one step.  (Own generator, so that the main stream is unchanged.)
+    r2 = random.Random(until * 1009 + len(beh) * 31 + len(init) * 7 + sum(t for _, t in init))
+    if init and r2.random() < 0.3:
+        i0, t0 = r2.choice(init)
+        init.append([i0, t0 if r2.random() < 0.6 else r2.randint(0, 3)])
     if monotone and rng.random() < 0.3:
         # forecasting producers: every output of a simulator is stamped a constant k steps into the future (still monotone)
         for b in beh:
@@ -614,6 +620,28 @@ def gen_weak_and_direct_case(rng: random.Random):
         outs = {f'{tt},{q}': [None, ['po', 'eo'] if (q == 0 and i == src and rng.random() < 0.6) else ['po']] for tt in range(until + 1) for q in range(3)}
         beh.append({'type': 'hybrid', 'self_steps': ss, 'outputs': outs, 'default_output': [None, ['po']]})
     return dict(n=n, types=types, grp=grp, edges=edges, until=until, beh=beh, init=[], maxloop=100)
+
+
+def gen_plain_init_case(rng: random.Random):
+    """declared initial data on an UNDELAYED connection from a persistent output: mosaik accepts it (with a warning), and a
+    consumer that steps before the source's first step (the source starts late: set_initial_event at t0 >= 1) must see it
+    until the source has produced a value.  Sometimes a second consumer on a time-shifted connection from the same output."""
+    n = rng.choice([2, 2, 3])
+    until = rng.randint(4, 6)
+    t0 = rng.randint(1, 3)
+    styp = rng.choice(['hybrid', 'time-based'])
+    types = [styp] + [rng.choice(['time-based', 'hybrid']) for _ in range(n - 1)]
+    order = rng.random() < 0.5
+    edges = [dict(a=0, b=1, sa='po', da='i', kind='p', shift=0, init=True)]
+    if n == 3:
+        edges.append(dict(a=0, b=2, sa='po', da='i', kind='p', shift=0, init=rng.random() < 0.5) if rng.random() < 0.5 else
+                     dict(a=1, b=2, sa='po', da='i', kind='p', shift=0, init=False))
+    beh = []
+    for i in range(n):
+        step = rng.choice([1, 1, 2])
+        ss = {str(tt): tt + step for tt in range(until + 1)}
+        beh.append({'type': types[i], 'self_steps': ss, 'step_size': step, 'default_output': [None, ['po']]})
+    return dict(n=n, types=types, grp=[[] for _ in range(n)], edges=edges, until=until, beh=beh, init=[[0, t0]], maxloop=100)
 
 
 def gen_pingpong_case(rng: random.Random):
